@@ -1,6 +1,9 @@
 (* Abs/CfgExample.v  A concrete run of Abs/CfgRaft.v with V0 = [1;2;3]:
    leader 1 commits a configuration adding 4, then one removing itself, then a
-   data entry under the new configuration [2;3;4] (without counting itself). *)
+   data entry under the new configuration [2;3;4] (without counting itself).
+   Then follower 2 crashes (keeps its flushed log, commit index rebuilt from 0
+   and restored by the next heartbeat), and leader 1 appends an entry it never
+   flushes and crashes: the entry is lost, the committed ones are not. *)
 From Coq Require Import List NArith Arith Lia Bool.
 From Verif Require Import Abs.CfgBase Abs.CfgRaft Abs.CfgRun.
 Import ListNotations.
@@ -17,6 +20,7 @@ Definition m2 := mkReq 1 1 1 1 [c1234] 1.
 Definition m3 := mkReq 1 1 0 0 [noop1; c1234] 1.
 Definition m4 := mkReq 1 1 2 1 [c234] 2.
 Definition m5 := mkReq 1 1 3 1 [d7] 3.
+Definition m6 := mkReq 1 1 4 1 [] 4.
 
 Definition sched : list action :=
   [ AStart 1; AGrant 2 1 1 []; ACount 1 1; ACount 1 2; AWin 1;
@@ -29,7 +33,9 @@ Definition sched : list action :=
     ACommit 1 3 [2; 4];
     AClient 1 7;
     ASend 1 3 1 3; ARecv 2 m5; ARecv 4 m5; AAck 1 2 4; AAck 1 4 4;
-    ACommit 1 4 [2; 4] ].
+    ACommit 1 4 [2; 4];
+    ACrash 2 0; ASend 1 4 0 4; ARecv 2 m6;
+    AClient 1 8; AFlush 4 4; ACrash 1 2 ].
 
 Definition final : state :=
   match run V3 true sched init with Some s => s | None => init end.
@@ -42,7 +48,9 @@ Proof. exact (run_sound V3 true sched init final (GR_init V3 true) final_run). Q
 
 Lemma final_facts :
   In (1, 2%nat, c1234) (committed final) /\ In (1, 3%nat, c234) (committed final) /\ 
-  In (1, 4%nat, d7) (committed final) /\ role (st final 1) = Leader /\ 
-  cfg V3 final 1 = [2; 3; 4] /\ commit (st final 1) = 4%nat /\ 
-  commit (st final 2) = 3%nat /\ log (st final 4) = [noop1; c1234; c234; d7].
+  In (1, 4%nat, d7) (committed final) /\ role (st final 1) = Follower /\
+  cfg V3 final 1 = [2; 3; 4] /\ commit (st final 1) = 2%nat /\
+  commit (st final 2) = 4%nat /\ log (st final 4) = [noop1; c1234; c234; d7] /\
+  log (st final 1) = [noop1; c1234; c234; d7] /\ flushed (st final 1) = 4%nat /\
+  log (st final 2) = [noop1; c1234; c234; d7] /\ flushed (st final 2) = 4%nat.
 Proof. vm_compute. repeat split; auto 10. Qed.
